@@ -6,7 +6,7 @@ from . import C03
 PROOF_MODULE = "Nlmodel.Proofs.C04"
 PROOF_FILES = ["Nlmodel/Proofs/C04.lean", "Nlmodel/Proofs/Lemmas/GCMark.lean", "Nlmodel/Proofs/Lemmas/GCReach.lean", "Nlmodel/Model/GC.lean", "Nlmodel/Model/VM.lean"]
 THEOREM_FILE = PROOF_FILES[0]
-LEVEL_TEXT = ("Lean theorems about the collector model: after a collection the collector manages EXACTLY the managed objects reachable from its roots (mark soundness: only reachable objects are marked, plus completeness from C03); every unreachable managed object has been released; dropping the collector - which is what ends every run, normally or through an error at any step - releases everything it still manages and touches nothing else, so on the error path nothing the run allocated remains, and on the normal path exactly the result graph handed over with `untrace` remains. Tied to the code by an allocation ledger in object.rs (hook): for every generated allocating program the run is cut short after k instructions for EVERY k up to its length (the budget hook leaves through the same `?` path as a runtime error) and the ledger is audited after each: nothing live, nothing released twice; on normal completion the harness releases the result graph (each distinct object once) and audits again; the model's ledger after its own finish must agree. RUN LEVEL, ALL PROGRAMS: in every state any run reaches the managed list names no address twice and only allocated ones (generic MemClosed invariant); every collection of every run is precise (C04_every_collection_of_every_run_is_precise, no heap hypotheses, by type soundness); the normal end of any run frees exactly what a collection with the result as only root frees and empties the collector (C04_handover_is_collection: untrace removes exactly what mark would mark); C04_result_outlives_the_interpreter: on a fresh machine the result's deep view is unchanged by the hand-over and the drop of the collector, and everything the result does not reach is released - no hypothesis on program or heap.")
+LEVEL_TEXT = ("Lean theorems about the collector model: after a collection the collector manages EXACTLY the managed objects reachable from its roots (mark soundness: only reachable objects are marked, plus completeness from C03); every unreachable managed object has been released; dropping the collector - which is what ends every run, normally or through an error at any step - releases everything it still manages and touches nothing else, so on the error path nothing the run allocated remains, and on the normal path exactly the result graph handed over with `untrace` remains. Tied to the code by an allocation ledger in object.rs (hook): for every generated allocating program the run is cut short after k instructions for EVERY k up to its length (the budget hook leaves through the same `?` path as a runtime error) and the ledger is audited after each: nothing live, nothing released twice; on normal completion the harness releases the result graph (each distinct object once) and audits again; the model's ledger after its own finish must agree. RUN LEVEL, ALL PROGRAMS: in every state any run reaches the managed list names no address twice and only allocated ones (generic MemClosed invariant); every collection of every run is precise (C04_every_collection_of_every_run_is_precise, no heap hypotheses, by type soundness); the normal end of any run frees exactly what a collection with the result as only root frees and empties the collector (C04_handover_is_collection: untrace removes exactly what mark would mark); C04_result_outlives_the_interpreter: on a fresh machine the result's deep view is unchanged by the hand-over and the drop of the collector, and everything the result does not reach is released - no hypothesis on program or heap. SESSION 7: THE COMPILE PHASE (Model/CompileMem.lean, Lemmas/CompileMem*): the real compiler allocates a box per float/string literal OCCURRENCE with its own collector, re-uses equal pool entries (the fresh box becomes a duplicate that stays with the compiler), untraces the pool on success and destroys everything on failure; C04_compile_occurrences_faithful (the occurrence list is faithful to the code generator, whole language), C04_compile_phase_success (every box is a pool box - live, unmanaged, one per entry, later released exactly once by the run's collector - or a duplicate freed exactly once by the drop of the compiler; nothing else is live), C04_compile_phase_failure (for every failure point k: nothing live, every box freed exactly once), C04_compile_phase_session (retained compiler over any sequence of succeeding/failing compilations).")
 LEVEL_NOTE = ("Whole-run ledger theorems for ANY bytecode on a fresh machine (Lemmas/Ledger.lean): a run that fails at any step or is abandoned after any number of instructions leaves NO live cell (C04_failed_run_leaves_nothing, C04_abandoned_run_leaves_nothing); a normal end leaves live EXACTLY the cells the result reaches, unchanged (C04_normal_run_leaves_only_the_result); the caller can release those one by one, each live at its turn, after which nothing is live (C04_caller_releases_result); a released cell is never live or managed again (C04_released_exactly_once); C04_run_ledger states the three exits of VM.run at once. Trusted: Lean kernel; the ledger hook (every allocate/destroy of object.rs goes through it); compile-time constant boxes of the compiler are owned by the compiler's collector until handed to the run (modelled as allocated at run start).")
 TECHNIQUE = "Lean 4 proof (collection precise, drop releases all) + exhaustive abort-point ledger audit on the real interpreter"
 RULE = ("allocating programs (C03's generator) of up to ~600 steps; for each, abort after k instructions for every k = 1..steps (complete per "
@@ -23,6 +23,8 @@ def run(res, tier, rng, table_diffs=()):
               "print([1.5, \"x\"]); lengte(1)", "stel a = [1.5]; functie g() { a[0] = [a]; 0 } g(); a", "zz + 1.5", "\"unterminated", "[1.5, 2.5"]
     # every root group x every kind of return (the value a run hands back must be released exactly once, by its receiver)
     progs += [src for _, src in C03.root_matrix()]
+    from .. import gen2
+    progs += gen2.alias_multiplicity_programs()
     full = core.impl(["evalx 1000000 " + hx(p) for p in progs])
     mfull = core.model(["evalx 1000000 " + hx(p) for p in progs])
     reqs, meta = [], []
